@@ -173,6 +173,79 @@ def decorate(rng, inst, allow_sets=True):
         inst['string_keys'] = ks
     inst['reactants_set'] = allow_sets and rng.random() < 0.25
     inst['products_set'] = allow_sets and rng.random() < 0.25
+    inst.setdefault('amounts', 'fraction')
+    return inst
+
+
+SYMBOLS = ['H', 'He', 'Li', 'Be', 'B', 'C', 'N', 'O', 'F', 'Ne', 'Na', 'Mg', 'Al', 'Si', 'P', 'S', 'Cl', 'Ar', 'K', 'Ca', 'Sc', 'Ti', 'V',
+           'Cr', 'Mn', 'Fe', 'Co', 'Ni', 'Cu', 'Zn', 'Ga', 'Ge', 'As', 'Se', 'Br', 'Kr', 'Rb', 'Sr', 'Y']       # atomic numbers 1..39
+
+
+def is_integral(inst):
+    return all(F(b).denominator == 1 for _, comp in inst['substances'] for _, b in comp)
+
+
+def decimalize(rng, inst):
+    """every element row of an integer instance scaled by a decimal factor (balance is row-wise, so the planted vector stays):
+    amounts like 0.02, 0.6, 0.9, 0.03, 2.1; the charge row stays integral"""
+    factors = {}
+    subs = []
+    for nm, comp in inst['substances']:
+        new = []
+        for k, v in comp:
+            if k not in factors:
+                factors[k] = Fraction(1) if k == 0 else rng.choice([Fraction(1, 10), Fraction(3, 10), Fraction(7, 10), Fraction(9, 10),
+                                                                      Fraction(1, 100), Fraction(3, 100), Fraction(1, 5), Fraction(1, 2), Fraction(1)])
+            new.append([k, rat_json(F(v) * factors[k])])
+        subs.append([nm, new])
+    return dict(inst, substances=subs)
+
+
+def dec_str(q):
+    q = F(q)
+    if q.denominator == 1:
+        return str(q.numerator)
+    from decimal import Decimal
+    d = Decimal(q.numerator) / Decimal(q.denominator)
+    assert F(str(d)) == q, q
+    return format(d, 'f')
+
+
+def formulize(inst):
+    """species named by flat formulas with decimal subscripts ('Fe0.6O0.9', 'Na0.5Cl1.25-1'); None when not expressible"""
+    ren = {}
+    for nm, comp in inst['substances']:
+        el = sorted((k, F(v)) for k, v in comp if k != 0)
+        if not el or any(v <= 0 or k > len(SYMBOLS) for k, v in el):
+            return None
+        f = ''.join('%s%s' % (SYMBOLS[k - 1], dec_str(v)) for k, v in el)
+        ch = [F(v) for k, v in comp if k == 0]
+        if ch:
+            if ch[0].denominator != 1:
+                return None
+            c = int(ch[0])
+            f += ('+%d' % c) if c > 0 else ('-%d' % -c)
+        if f in ren.values():
+            return None
+        ren[nm] = f
+    return dict(inst, formula=True, amounts='float',
+                reactants=[ren[k] for k in inst['reactants']], products=[ren[k] for k in inst['products']],
+                substances=[[ren[nm], comp] for nm, comp in inst['substances']])
+
+
+def float_stream(rng, inst):
+    """-> instance whose amounts reach chempy as Python floats (dict compositions or decimal-subscript formulas), or the instance unchanged"""
+    u = rng.random()
+    if u < 0.12 and is_integral(inst):
+        f = formulize(decimalize(rng, inst))
+        if f is not None:
+            return f
+    if u < 0.22 and is_integral(inst):
+        return dict(decimalize(rng, inst), amounts=rng.choice(['float', 'float', 'float-noisy']))
+    if u < 0.32 and all((F(b) * 10 ** 4).denominator == 1 for _, comp in inst['substances'] for _, b in comp):
+        # only finite decimals (<= 4 places): a double near 1079/105 = 10.276190476190477 has no decimal reading to be expected
+        # (nsimplify(rational=True) reads it as 20552380952381/2000000000000 and the reaction is balanced for THAT reading)
+        return dict(inst, amounts=rng.choice(['float', 'float', 'float-noisy']))
     return inst
 
 
@@ -189,14 +262,15 @@ def call_args(inst):
     """positional/keyword arguments of the real call for this instance"""
     from chempy import Substance
     norm_inst(inst)
-    table = {nm: {int(a): F(b) for a, b in comp} for nm, comp in inst['substances']}
+    table = {nm: {int(a): amount(inst, b) for a, b in comp} for nm, comp in inst['substances']}
     r = set(inst['reactants']) if inst['reactants_set'] else list(inst['reactants'])
     p = set(inst['products']) if inst['products_set'] else list(inst['products'])
     kw = {}
     if inst['via'] == 'dict':
         kw['substances'] = substances_of(inst)
     else:
-        kw['substance_factory'] = lambda k: Substance(k, composition=dict(table[k]))
+        if not inst.get('formula'):          # formula instances: the default factory Substance.from_formula parses the key
+            kw['substance_factory'] = lambda k: Substance(k, composition=dict(table[k]))
         kw['substances'] = None if inst['via'] == 'factory' else ' '.join(inst['string_keys'])
     return r, p, kw
 
@@ -208,7 +282,7 @@ def coprime_pos(rng, n, hi):
             return x
 
 
-def gen_rows(rng, x, nr, n_rows, frac, charge):
+def gen_rows(rng, x, nr, n_rows, frac, charge, dyadic=False):
     """composition rows c (one per key) with sum_reac c_j x_j == sum_prod c_j x_j; element rows are >= 0"""
     n = len(x)
     rows = []
@@ -221,7 +295,7 @@ def gen_rows(rng, x, nr, n_rows, frac, charge):
         if frac and rng.random() < 0.5:
             for _ in range(rng.randint(1, 2)):        # halves, thirds, fifths, sevenths ..., mixed denominators in one row
                 j = rng.randrange(n)
-                c[j] = c[j] + Fraction(rng.randint(1, 6), rng.choice([2, 3, 4, 5, 6, 7, 10]))
+                c[j] = c[j] + Fraction(rng.randint(1, 6), rng.choice([2, 4] if dyadic else [2, 3, 4, 5, 6, 7, 10]))
         j = rng.randrange(n)                          # the species whose amount is solved for
         c[j] = Fraction(0)
         tr = sum(c[i] * x[i] for i in range(nr))
@@ -230,7 +304,7 @@ def gen_rows(rng, x, nr, n_rows, frac, charge):
         v = need / x[j]
         # non-dyadic amounts (7/3, 2/5 ...) are generated since fix c82b474 (the ILP gets integer rows); before it mode None
         # refused such balanceable reactions (notes, finding 7)
-        if not frac and v.denominator != 1:
+        if (not frac and v.denominator != 1) or (dyadic and v.denominator & (v.denominator - 1)):
             c = [ci * x[j] for ci in c]
             v = v * x[j]
         if v < 0 and not signed:
@@ -254,7 +328,7 @@ def make_inst(rng, names, nr, rows, key_ids):
 LARGE_POOL = ['S%02d' % i for i in range(20)]      # names for the 11-16 species instances (also recurring)
 
 
-def gen_planted(rng, tier, want_nullity=1, names=None, nr=None, large=False):
+def gen_planted(rng, tier, want_nullity=1, names=None, nr=None, large=False, dyadic=False):
     """instance with a planted positive coprime solution and null space of the wanted dimension;
     large: 11-16 species, 10+ composition keys (two-digit column indices, more keys than a textbook reaction)"""
     for _ in range(400):
@@ -265,7 +339,7 @@ def gen_planted(rng, tier, want_nullity=1, names=None, nr=None, large=False):
         frac = rng.random() < 0.35
         charge = rng.random() < 0.4
         n_rows = (n - want_nullity) + rng.randint(0, 2)
-        rows = gen_rows(rng, x, nr, n_rows, frac, charge)
+        rows = gen_rows(rng, x, nr, n_rows, frac, charge, dyadic)
         if not rows:
             continue
         A = [[(-c if j < nr else c) for j, c in enumerate(r)] for r in rows]
@@ -353,9 +427,23 @@ class Spy:
         self.cc._solve_balancing_ilp_pulp, self.sympy.linsolve = self.old_ilp, self.old_lin
 
 
+def amount(inst, q):
+    """the Python value handed to chempy for the exact amount q: Fraction (default), the nearest double ('float'),
+    or a double that went through float arithmetic and may be an ulp off ('float-noisy', e.g. 0.1*3)"""
+    q = F(q)
+    a = inst.get('amounts', 'fraction')
+    if a == 'fraction':
+        return q
+    if q.denominator == 1:
+        return int(q)
+    return float(q) if a == 'float' else (float(q) / 3) * 3
+
+
 def substances_of(inst):
     from chempy import Substance
-    return OrderedDict((nm, Substance(nm, composition={int(a): F(b) for a, b in comp})) for nm, comp in inst['substances'])
+    if inst.get('formula'):
+        return OrderedDict((nm, Substance.from_formula(nm)) for nm, _ in inst['substances'])
+    return OrderedDict((nm, Substance(nm, composition={int(a): amount(inst, b) for a, b in comp})) for nm, comp in inst['substances'])
 
 
 def show_entry(v):
@@ -395,8 +483,11 @@ class C02(Property):
         'mode True never checks the residual: balance of a symbolic / mode-True answer rests on linsolve and is validated per instance (identically, by sympy expansion, and at sample points by the Lean checker)',
         'single-ray-ness of generated instances rests on the exact Fraction rank computation in tools/harness/c02.py',
         'sympy\'s gcd of rational numbers is modelled as gcd(numerators)/lcm(denominators) (QQ.gcd), gcd_list with its early exit; tied by the injected-candidate correspondence',
-        'compositions are driven as exact Fractions (any denominators: halves, thirds, fifths, sevenths, mixed) or ints; Python-float amounts '
-        'that are not dyadic are NOT generated: on /repo `nsimplify(A)` leaves a float Matrix unchanged and multi-key float systems are refused in all modes (reported, notes finding 9)',
+        'compositions are driven as exact Fractions (any denominators), ints, or Python floats that denote finite decimals with <= 4 places (0.02, 0.6, 2.1; also an ulp '
+        'off, e.g. (0.3/3)*3), in dict compositions and through decimal-subscript formulas parsed by Substance.from_formula; expected = the decimal reading. A double with '
+        'no short decimal reading (e.g. the double next to 1079/105) is read by nsimplify(rational=True) as a long decimal; the reaction is balanced for that reading - not generated',
+        'allow_duplicates instances use integer / dyadic amounts only: their sub-instances are not planted and can have 6-digit minimal coefficients, on which CBC (called without '
+        'a time limit) runs for minutes - performance, outside the statement of C02',
         'large instances (11-16 species) are generated single-ray only: chempy calls CBC without a time limit and 11+ species two-ray ILPs can run '
         'for minutes - a performance matter outside the statement of C02',
         'species names are distinct within each side (a name repeated on one side collapses in the returned dict; outside the property\'s quantifier over sets)',
@@ -447,6 +538,7 @@ class C02(Property):
                     out['res'] = None
                     out['exc'] = TimeoutError(str(e))
                     out['line'] = 'TimeoutError'
+                    out['breaker'] = 'earlier real calls' in str(e)    # not attempted at all: inconclusive, never a counterexample
                 except Exception as e:
                     out['res'] = None
                     out['exc'] = e
@@ -496,6 +588,7 @@ class C02(Property):
                     out['res'] = None
                     out['exc'] = TimeoutError(str(e))
                     out['line'] = 'TimeoutError'
+                    out['breaker'] = 'earlier real calls' in str(e)    # not attempted at all: inconclusive, never a counterexample
                 except Exception as e:
                     out['res'] = None
                     out['exc'] = e
@@ -551,7 +644,7 @@ class C02(Property):
             large = it % 7 == 3          # every 7th draw: 11-16 species (two-digit column indices), 10+ composition keys
             if r < 0.40:
                 inst, x = gen_planted(rng, tier, large=large)
-                inst = decorate(rng, inst)
+                inst = decorate(rng, float_stream(rng, inst))
                 x = reorder(inst, x)
                 all_modes(inst, 'planted', x=x)
                 add({'op': 'setup', 'kind': 'planted', 'inst': inst})
@@ -563,7 +656,7 @@ class C02(Property):
                 if mv is None:
                     continue
                 inst2, ray = mv
-                inst2 = decorate(rng, inst2)
+                inst2 = decorate(rng, float_stream(rng, inst2))     # a formula instance renames the species, positions stay
                 ray = reorder(inst2, ray)
                 all_modes(inst2, 'wrong-side', ray=ray)
                 add({'op': 'setup', 'kind': 'wrong-side', 'inst': inst2})
@@ -574,7 +667,7 @@ class C02(Property):
                 inst2 = add_unbalanced_key(rng, inst)
                 if inst2 is None:
                     continue
-                inst2 = decorate(rng, inst2)
+                inst2 = decorate(rng, float_stream(rng, inst2))
                 all_modes(inst2, 'full-rank')
                 add({'op': 'setup', 'kind': 'full-rank', 'inst': inst2})
             elif r < 0.85:
@@ -582,7 +675,7 @@ class C02(Property):
                 inst, x = gen_planted(rng, tier, want_nullity=2)
                 if sum(x) > 14:
                     continue
-                inst = decorate(rng, inst)
+                inst = decorate(rng, float_stream(rng, inst))
                 x = reorder(inst, x)
                 all_modes(inst, 'multi', x=x)
                 add({'op': 'minimal', 'kind': 'multi', 'inst': inst, 'variant': 'output'})
@@ -592,7 +685,9 @@ class C02(Property):
                          'params': [rat_json(Fraction(rng.randint(1, 9), rng.randint(1, 4))) for _ in range(4)],
                          'perturb': rng.random() < 0.3})
             else:
-                inst, x = gen_planted(rng, tier, want_nullity=1 if large else rng.choice([1, 1, 2]), large=large)
+                # dyadic fractions only: the sub-instances the duplicate search tries are not planted, with mixed denominators their minimal integer
+                # solution can have 6-digit coefficients and CBC (no time limit in chempy) then runs for minutes (notes, finding 10)
+                inst, x = gen_planted(rng, tier, want_nullity=1 if large else rng.choice([1, 1, 2]), large=large, dyadic=True)
                 r0, p0 = inst['reactants'], inst['products']
                 dups = rng.sample(r0 + p0, rng.randint(1, min(2, len(r0) + len(p0))))
                 r1 = r0 + [d for d in dups if d not in r0]
@@ -742,6 +837,8 @@ class C02(Property):
         keys = inst_keys(inst)
         if op == 'dup':
             out = self.real_dup(inst, c['mode'])
+            if out.get('breaker'):
+                return None
             if out['res'] is None:
                 e = out['exc']
                 if c['mode'] != 'None':
@@ -757,6 +854,8 @@ class C02(Property):
         keys = inst_keys(inst)
         mode = c['mode']
         out = self.real(inst, mode, nocache=nocache)
+        if out.get('breaker'):
+            return None
         if mode == 'None' and kind == 'planted' and out['ilp'] is not None:
             # the ILP helper's list is consumed POSITIONALLY (entry i = column i of A = i-th species): on a single ray the
             # minimal positive integer solution is the planted vector itself, so the helper must return it in column order
